@@ -76,7 +76,7 @@ def _depth_leak(repo, ob, failure):
     return None
 
 
-@generator("C01.path.progress")
+@generator("C01.path.")
 def _path_hang(repo, ob, failure):
     import itertools
     cmds = "MmLlHhVvZzCcSsQqTtAa"
